@@ -12,6 +12,7 @@ import (
 	"github.com/relab/hotstuff/protocol"
 	"github.com/relab/hotstuff/protocol/consensus"
 	"github.com/relab/hotstuff/protocol/rules"
+	"github.com/relab/hotstuff/protocol/votingmachine"
 	"github.com/relab/hotstuff/security/cert"
 )
 
@@ -27,84 +28,89 @@ func (vhDuration) ViewStarted()            {}
 func (vhDuration) ViewSucceeded()          {}
 func (vhDuration) ViewTimeout()            {}
 
-// vhComm records what the replica sends.
-type vhComm struct {
-	votedBlocks []*hotstuff.Block
-	newViews    []hotstuff.SyncInfo
-	timeouts    []hotstuff.TimeoutMsg
+// VComm records what the replica sends.
+type VComm struct {
+	VotedBlocks []*hotstuff.Block
+	NewViews    []hotstuff.SyncInfo
+	Timeouts    []hotstuff.TimeoutMsg
 }
 
-func (c *vhComm) Aggregate(p *hotstuff.ProposeMsg, _ hotstuff.PartialCert) error {
-	c.votedBlocks = append(c.votedBlocks, p.Block)
+func (c *VComm) Aggregate(p *hotstuff.ProposeMsg, _ hotstuff.PartialCert) error {
+	c.VotedBlocks = append(c.VotedBlocks, p.Block)
 	return nil
 }
-func (c *vhComm) Disseminate(p *hotstuff.ProposeMsg, _ hotstuff.PartialCert) error { return nil }
-func (c *vhComm) NewView(_ hotstuff.ID, si hotstuff.SyncInfo) error {
-	c.newViews = append(c.newViews, si)
+func (c *VComm) Disseminate(p *hotstuff.ProposeMsg, _ hotstuff.PartialCert) error { return nil }
+func (c *VComm) NewView(_ hotstuff.ID, si hotstuff.SyncInfo) error {
+	c.NewViews = append(c.NewViews, si)
 	return nil
 }
-func (c *vhComm) Vote(hotstuff.ID, hotstuff.PartialCert) error { return nil }
-func (c *vhComm) Timeout(m hotstuff.TimeoutMsg)                { c.timeouts = append(c.timeouts, m) }
-func (c *vhComm) Propose(*hotstuff.ProposeMsg)                 {}
-func (c *vhComm) Sub([]hotstuff.ID) (core.Sender, error)       { return c, nil }
-func (c *vhComm) RequestBlock(context.Context, hotstuff.Hash) (*hotstuff.Block, bool) {
+func (c *VComm) Vote(hotstuff.ID, hotstuff.PartialCert) error { return nil }
+func (c *VComm) Timeout(m hotstuff.TimeoutMsg)                { c.Timeouts = append(c.Timeouts, m) }
+func (c *VComm) Propose(*hotstuff.ProposeMsg)                 {}
+func (c *VComm) Sub([]hotstuff.ID) (core.Sender, error)       { return c, nil }
+func (c *VComm) RequestBlock(context.Context, hotstuff.Hash) (*hotstuff.Block, bool) {
 	return nil, false
 }
 
-// vhReplica is one replica's protocol stack around a Synchronizer, built from the real
+// VReplica is one replica's protocol stack around a Synchronizer, built from the real
 // constructors; environment parts (sender, timers, leader schedule) are stubs.
-type vhReplica struct {
-	w        *cert.VWorld
-	el       *eventloop.EventLoop
-	states   *protocol.ViewStates
-	voter    *consensus.Voter
-	sync     *Synchronizer
-	comm     *vhComm
-	views    []hotstuff.ViewChangeEvent
-	commits  []*hotstuff.Block
-	ruleset  consensus.Ruleset
+type VReplica struct {
+	W       *cert.VWorld
+	El      *eventloop.EventLoop
+	States  *protocol.ViewStates
+	Voter   *consensus.Voter
+	Sync    *Synchronizer
+	Comm    *VComm
+	Views   []hotstuff.ViewChangeEvent
+	Commits []*hotstuff.Block
+	Ruleset consensus.Ruleset
+	VM      *votingmachine.VotingMachine
 }
 
+// VCacheSize is the signature cache capacity of replicas built by VNewReplica (0: no cache).
+var VCacheSize int
+
 // rule: 0 chained, 1 fast (aggregate QCs), 2 simple. self is never the leader.
-func vhNewReplica(n int, rule int, leader hotstuff.ID, sym bool) *vhReplica {
+func VNewReplica(n int, rule int, leader hotstuff.ID, sym bool) *VReplica {
 	var opts []core.RuntimeOption
 	if rule == 1 {
 		opts = append(opts, core.WithAggregateQC())
 	}
-	w := cert.VNewWorld(1, n, false, 0, sym, opts...)
-	r := &vhReplica{w: w, comm: &vhComm{}}
+	w := cert.VNewWorld(1, n, false, VCacheSize, sym, opts...)
+	r := &VReplica{W: w, Comm: &VComm{}}
 	log := logging.VNop()
-	r.el = eventloop.New(log, 100)
+	r.El = eventloop.New(log, 100)
 	states, err := protocol.NewViewStates(w.Chain, w.Auth)
 	if err != nil {
 		panic(err)
 	}
-	r.states = states
+	r.States = states
 	switch rule {
 	case 0:
-		r.ruleset = rules.NewChainedHotStuff(log, w.Cfg, w.Chain)
+		r.Ruleset = rules.NewChainedHotStuff(log, w.Cfg, w.Chain)
 	case 1:
-		r.ruleset = rules.NewFastHotStuff(log, w.Cfg, w.Chain)
+		r.Ruleset = rules.NewFastHotStuff(log, w.Cfg, w.Chain)
 	default:
-		r.ruleset = rules.NewSimpleHotStuff(log, w.Cfg, w.Chain)
+		r.Ruleset = rules.NewSimpleHotStuff(log, w.Cfg, w.Chain)
 	}
-	committer := consensus.NewCommitter(r.el, log, w.Chain, states, r.ruleset)
+	committer := consensus.NewCommitter(r.El, log, w.Chain, states, r.Ruleset)
 	lr := vhLeader{leader}
-	r.voter = consensus.NewVoter(w.Cfg, lr, r.ruleset, r.comm, w.Auth, committer)
-	proposer := consensus.NewProposer(r.el, w.Cfg, w.Chain, states, r.ruleset, r.comm, r.voter, clientpb.NewCommandCache(1), committer)
+	r.Voter = consensus.NewVoter(w.Cfg, lr, r.Ruleset, r.Comm, w.Auth, committer)
+	proposer := consensus.NewProposer(r.El, w.Cfg, w.Chain, states, r.Ruleset, r.Comm, r.Voter, clientpb.NewCommandCache(1), committer)
 	var tr TimeoutRuler
 	if rule == 1 {
 		tr = newAggregate(w.Cfg, w.Auth)
 	} else {
 		tr = newSimple(w.Cfg, w.Auth)
 	}
-	r.sync = New(r.el, log, w.Cfg, w.Auth, lr, vhDuration{}, tr, proposer, r.voter, states, r.comm)
-	eventloop.Register(r.el, func(e hotstuff.ViewChangeEvent) { r.views = append(r.views, e) })
-	eventloop.Register(r.el, func(e hotstuff.CommitEvent) { r.commits = append(r.commits, e.Block) })
+	r.Sync = New(r.El, log, w.Cfg, w.Auth, lr, vhDuration{}, tr, proposer, r.Voter, states, r.Comm)
+	r.VM = votingmachine.New(log, r.El, w.Cfg, w.Chain, w.Auth, states)
+	eventloop.Register(r.El, func(e hotstuff.ViewChangeEvent) { r.Views = append(r.Views, e) })
+	eventloop.Register(r.El, func(e hotstuff.CommitEvent) { r.Commits = append(r.Commits, e.Block) })
 	return r
 }
 
-func (r *vhReplica) drain() {
-	for r.el.Tick(context.Background()) {
+func (r *VReplica) Drain() {
+	for r.El.Tick(context.Background()) {
 	}
 }
